@@ -260,6 +260,99 @@ def _serial_stage(rep, thorough):
             "serial_calls_validated": len(calls), "serial_16bit_first_operand_exhaustive": bool(thorough)}
 
 
+# --------------------------------------------------------------------------- C17 for the RTP sequence spaces
+
+
+def _rtp_origin_stage(rep, thorough):
+    """C17 names the RTP sequence numbers and timestamps in the jitter buffer, loss detection,
+    receiver statistics and retransmission history too.  The harnesses of C10 and C11 run every
+    schedule under several origins (next to 2^16 / 2^32 and small) and their trace specifications
+    carry the clauses C17.jitter_origin / C17.media_origin; this stage runs those origin groups
+    here and reports the C17 clauses (the other clauses of those traces belong to C10 / C11)."""
+    import random as _random
+    from . import c10_jitterbuffer as J10
+    from . import c11_medialoop as M11
+    out = {}
+    r = _random.Random(seed() * 977 + 1710)
+    # jitter buffer: schedules x origins, judged by TraceJitterBuffer.tla
+    jt = []
+    J10.random_traces(False, r, jt)
+    if not thorough:
+        jt = jt[:160]
+    for i, t in enumerate(jt):
+        t["id"] = i + 1
+    with T.Scratch(prefix="verif_c17j_") as sc:
+        _, jv = J10.judge(sc, jt, timeout=1500)
+    nj = 0
+    for t in jt:
+        v = jv[t["id"]][0]
+        if v.startswith("C17."):
+            nj += 1
+            rep.violation(v, {"clause": v}, {"capacity": t.get("cap"), "prefetch": t.get("pf"), "video": t.get("video"),
+                                             "origins": [x["origin"] for x in t.get("runs", [])]},
+                          {"kind": "jitter", "trace": t})
+    out["rtp_jitter_schedules_x_origins"] = sum(len(t.get("runs", [])) for t in jt)
+    # media loop: schedules x all origins, judged by TraceMediaLoop.tla (origin groups only)
+    nspec = 160 if thorough else 24
+    jobs = [(s_, list(range(len(M11.ORIGINS)))) for s_ in M11.REGRESSION_SPECS]
+    for i in range(nspec):
+        jobs.append((M11.random_spec(r, i, thorough), list(range(len(M11.ORIGINS)))))
+    groups = []
+    nruns = 0
+    for trs in M11.run_schedules(jobs, min(12, os.cpu_count() or 2)):
+        nruns += len(trs)
+        groups.append({"id": len(groups) + 1, "kind": "origins", "obs": [M11.digest(t) for t in trs],
+                       "spec": trs[0]["spec"], "origins": [t["origin"] for t in trs]})
+    with T.Scratch(prefix="verif_c17m_") as sc:
+        _, mv = M11.judge(sc, [{k: g[k] for k in ("id", "kind", "obs")} for g in groups], timeout=1500)
+    for g in groups:
+        v, pos = mv[g["id"]]
+        if v.startswith("C17."):
+            rep.violation(v, {"clause": v}, {"variant": pos, "origins": g["origins"], "class": g["spec"].get("cls")},
+                          {"kind": "origins", "spec": g["spec"], "origins": g["origins"], "obs": g["obs"]})
+        elif v.startswith("machinery"):
+            raise T.MachineryError("media origin group: " + v)
+    out["rtp_media_schedules"] = len(groups)
+    out["rtp_media_runs"] = nruns
+    return out
+
+
+# --------------------------------------------------------------------------- C17 design level: SctpAssoc modulo M
+
+
+def _wrap_stage(thorough):
+    """SctpAssoc.tla with TSNs modulo 16 and stream sequence numbers modulo 8, started at origins
+    next to the wrap points: the clauses of C01 / C02 / C06 hold for every origin and the state
+    graph has the same size as with unbounded numbers; comparing TSNs numerically breaks them."""
+    out = {"wrap_runs": []}
+    with T.Scratch() as sc:
+        bases = ["rel-small", "pr-tiny"] + (["pr-life", "pr-back"] if thorough else [])
+        origins = ([(o, (o * 3 + 5) % 8) for o in range(16)] if thorough else [(0, 0), (13, 6), (15, 7)])
+        ref = {}
+        states = trans = 0
+        for b in bases:
+            r0 = M.run_tlc(sc, M.CONFIGS[b], DESIGN_INV, timeout=1500)
+            ref[b] = r0.distinct
+            for o, so in (origins if thorough or b == "rel-small" else origins[-1:]):
+                cfg = M.CONFIGS[b].wrapped(16, o, 8, so)
+                res = M.run_tlc(sc, cfg, DESIGN_INV, timeout=1500)
+                if res.violated or not res.complete:
+                    raise T.MachineryError("SctpAssoc modulo 16 at origin %d/%d (%s) fails: %s\n%s" % (
+                        o, so, b, res.violated, res.out[-1000:]))
+                if res.distinct != ref[b]:
+                    raise T.MachineryError("SctpAssoc modulo 16 at origin %d/%d (%s): %d states, unbounded %d" % (
+                        o, so, b, res.distinct, ref[b]))
+                states += res.distinct
+                trans += res.generated
+                out["wrap_runs"].append([b, o, so, res.distinct])
+        dv = M.run_tlc(sc, M.CONFIGS["rel-small"].wrapped(16, 14, 8, 7), DESIGN_INV, dev=["NumericTsnCompare"], timeout=900)
+        if not dv.violated:
+            raise T.MachineryError("sensitivity: NumericTsnCompare not detected at origin 14")
+        out["wrap_deviation_NumericTsnCompare"] = dv.violated[:1]
+        out["wrap_states"], out["wrap_transitions"] = states, trans
+    return out
+
+
 # --------------------------------------------------------------------------- C13 design level: DcLifecycle.tla
 
 DCL_INV = ["EventsOnce", "IdParity", "NoCollision", "Faithful", "NoBad", "EndClosesAll", "CloseCompleteWhenQuiet"]
@@ -521,12 +614,17 @@ def run(prop):
                               {"ops": tr.get("ops"), "origin": tr.get("origin"), "meta": tr["meta"],
                                "focus": p["focus"], "has_ref": "ref" in tr})
         extra = _serial_stage(rep, thorough) if prop == "C17" else {}
+        if prop == "C17":
+            wr = _wrap_stage(thorough)
+            extra.update(wr)
+            extra.update(_rtp_origin_stage(rep, thorough))
+            design_states, design_trans = wr["wrap_states"], wr["wrap_transitions"]
         if prop == "C13":
             extra = _lifecycle_stage(thorough)
             design_states, design_trans = extra["lifecycle_states"], extra["lifecycle_transitions"]
         rep.coverage = {
             "states": design_states or tstates, "transitions": design_trans or ttrans,
-            "exhaustive": bool(p["design"][ti]) or prop == "C13",
+            "exhaustive": bool(p["design"][ti]) or prop in ("C13", "C17"),
             "design_configs": p["design"][ti], "design_invariants": DESIGN_INV if p["design"][ti] else [],
             "witnesses_violated_as_required": wit, "deviations_detected": devs, "liveness_C02_Drains": live,
             "action_coverage": acts_cov,
@@ -541,7 +639,7 @@ def run(prop):
         }
         rep.coverage.update(extra)
         rep.coverage.update(hs_extra)
-        if not p["design"][ti] and prop != "C13":
+        if not p["design"][ti] and prop not in ("C13", "C17"):
             rep.coverage["explanation"] = ("design-level model for this property: see the property's own "
                                            "specification module; states/transitions are those of the TLC trace validation")
         rep.assumptions = [
@@ -614,6 +712,30 @@ def replay(prop, path):
     rp = obj["replay"]
     p = PROPS[prop]
     meta = rp.get("meta") or {}
+    if rp.get("kind") == "origins":          # an RTP media schedule under all origins (C17 stage)
+        from . import c11_medialoop as M11
+        trs = M11._job_random((rp["spec"], list(range(len(M11.ORIGINS)))))
+        g = {"id": 1, "kind": "origins", "obs": [M11.digest(t) for t in trs]}
+        with T.Scratch(prefix="verif_c17m_") as sc:
+            _, mv = M11.judge(sc, [g], timeout=900)
+        v = mv[1][0]
+        if v == "ok":
+            print("replay: trace accepted on the current tree")
+            return 0
+        print("VIOLATION property=%s replay=%s clause=%s" % (prop, path, v))
+        return 1
+    if rp.get("kind") == "jitter":
+        from . import c10_jitterbuffer as J10
+        tr = J10.rerun(rp["trace"] if "runs" in rp["trace"] else dict(rp["trace"], runs=[]))
+        tr["id"] = 1
+        with T.Scratch(prefix="verif_c17j_") as sc:
+            _, jv = J10.judge(sc, [tr], timeout=900)
+        v = jv[1][0]
+        if not v.startswith("C17."):
+            print("replay: trace accepted on the current tree")
+            return 0
+        print("VIOLATION property=%s replay=%s clause=%s" % (prop, path, v))
+        return 1
     if meta.get("src") == "handshake-lockstep":
         ls = M.HandshakeLockStep()
         try:
